@@ -461,7 +461,12 @@ namespace Pistache
 
     std::ostream& operator<<(std::ostream& os, const Address& address)
     {
-        os << address.host() << ":" << address.port();
+        // An IPv6 literal must be bracketed, otherwise the port cannot be told
+        // apart from the last group and the text cannot be parsed back.
+        if (address.family() == AF_INET6)
+            os << "[" << address.host() << "]:" << address.port();
+        else
+            os << address.host() << ":" << address.port();
         return os;
     }
 
